@@ -59,11 +59,20 @@ def unit_quat(draw, identity_p=0.15):
     return [1.0, 0.0, 0.0, 0.0]
   if r < identity_p * 100 + 15:
     return [float(x) for x in draw(st.sampled_from(SPECIAL_QUATS))]
-  return _norm(draw(st.lists(fl(-1, 1), min_size=4, max_size=4)), [1, 0, 0, 0])
+  q = _norm(draw(st.lists(fl(-1, 1), min_size=4, max_size=4)), [1, 0, 0, 0])
+  if max(abs(x) for x in q[1:]) < 1e-4:  # nearly-identity rotations: same "sameframe" tolerance of the reference
+    return [1.0, 0.0, 0.0, 0.0]
+  return q
+
+
+def _snap(x, eps=1e-4):
+  return 0.0 if abs(x) < eps else float(x)
 
 
 def vec3(lo, hi):
-  return st.lists(num(lo, hi), min_size=3, max_size=3)
+  # offsets in (0, 1e-4) are snapped to 0: MuJoCo's compiler treats frames closer than ~1e-6 as identical
+  # (its "sameframe" shortcut), so such offsets would measure the reference's approximation, not brax
+  return st.lists(num(lo, hi), min_size=3, max_size=3).map(lambda v: [_snap(x) for x in v])
 
 
 def quat_to_mat(q):
